@@ -161,6 +161,20 @@ impl Repo {
             }
             "untracked" => std::fs::write(self.dir.join("untracked.txt"), "u\n").unwrap(),
             "ignored" => std::fs::write(self.dir.join("ignored.txt"), "i\n").unwrap(),
+            "deleted" => std::fs::remove_file(self.dir.join("tracked.txt")).unwrap(),
+            "staged-deletion" => { self.git(&["rm", "-q", "tracked.txt"], None).unwrap(); }
+            "untracked-nested" => {
+                std::fs::create_dir_all(self.dir.join("new").join("deep")).unwrap();
+                std::fs::write(self.dir.join("new").join("deep").join("u.txt"), "u\n").unwrap();
+            }
+            // git does not track directories: an empty one changes nothing
+            "empty-dir" => std::fs::create_dir_all(self.dir.join("emptydir").join("x")).unwrap(),
+            "staged-then-reverted" => {
+                // index and work tree differ from each other but the work tree equals HEAD again: still a change to commit
+                std::fs::write(self.dir.join("tracked.txt"), "changed\n").unwrap();
+                self.git(&["add", "tracked.txt"], None).unwrap();
+                std::fs::write(self.dir.join("tracked.txt"), "tracked\n").unwrap();
+            }
             _ => {}
         }
     }
@@ -268,10 +282,10 @@ fn flow_out(repo: &Repo, fmt: &str) -> Option<String> {
     }
 }
 
-const KINDS: &[&str] = &["clean", "modified", "staged", "untracked", "ignored"];
+const KINDS: &[&str] = &["clean", "modified", "staged", "untracked", "ignored", "deleted", "staged-deletion", "untracked-nested", "empty-dir", "staged-then-reverted"];
 
 fn expected_dirty(kind: &str) -> bool {
-    matches!(kind, "modified" | "staged" | "untracked")
+    matches!(kind, "modified" | "staged" | "untracked" | "deleted" | "staged-deletion" | "untracked-nested" | "staged-then-reverted")
 }
 
 /// judge one observation against the expected answers of the specification (Gen direction)
@@ -369,7 +383,9 @@ pub fn replay(args: &[String]) {
         let f3 = ["auto", "semver", "pep440"][(text.len() / 2) % 3];
         obs.push((f3, format!("linked:{c}"), observe_linked(&repo, f3, c)));
         // the work-tree kinds under one format each
-        for (i, kind) in KINDS.iter().enumerate().skip(1) {
+        // (the first four kinds for every repository, one of the others in turn)
+        let extra = 5 + text.len() % (KINDS.len() - 5);
+        for (i, kind) in KINDS.iter().enumerate().skip(1).filter(|(i, _)| *i < 5 || *i == extra) {
             let fmt = ["auto", "semver", "pep440"][(text.len() + i) % 3];
             repo.touch(kind);
             obs.push((fmt, kind.to_string(), observe(&repo, fmt)));
@@ -486,7 +502,7 @@ pub fn record(args: &[String]) {
                     }
                 }
                 _ => {
-                    let kind = KINDS[[0, 0, 0, 1, 2, 3, 4][rng.gen_range(0..7)]];
+                    let kind = KINDS[[0, 0, 0, 0, 1, 2, 3, 4, 5, 6, 7, 8, 9][rng.gen_range(0..13)]];
                     repo.touch(kind);
                     let o = observe(&repo, fmt);
                     repo.restore();
